@@ -172,7 +172,10 @@ pub struct Model {
     pub reorged: BTreeSet<Key>,
     pub memo: HashMap<Txid, Verdict>,
     /// keys whose outcome in the current operation is left open by the properties (-27 verdict)
-    pub unspecified: BTreeSet<Key>,
+    /// keys for which the properties leave open whether a tracker is created (-27 verdict at trigger time); the appointment must stay
+    pub tracker_optional: BTreeSet<Key>,
+    /// keys that may legitimately have been dropped (without refund) or kept in this operation
+    pub maybe_dropped: BTreeSet<Key>,
     /// (key, property) of every model mutation in the current operation
     pub touched: Vec<(Key, &'static str)>,
     pub touched_users: Vec<(usize, &'static str)>,
@@ -236,7 +239,8 @@ impl Model {
             r_cache: VecDeque::new(),
             reorged: BTreeSet::new(),
             memo: HashMap::new(),
-            unspecified: BTreeSet::new(),
+            tracker_optional: BTreeSet::new(),
+            maybe_dropped: BTreeSet::new(),
             touched: vec![],
             touched_users: vec![],
             violations: vec![],
@@ -262,7 +266,8 @@ impl Model {
     }
 
     pub fn begin_op(&mut self) {
-        self.unspecified.clear();
+        self.tracker_optional.clear();
+        self.maybe_dropped.clear();
         self.touched.clear();
         self.touched_users.clear();
         self.new_trackers.clear();
@@ -335,12 +340,14 @@ impl Model {
                     Some(Verdict::Accepted) => Some(MStatus::Unconf),
                     Some(Verdict::Error(crate::simnode::RPC_VERIFY_ALREADY_IN_CHAIN)) => {
                         self.stats.unspecified += 1;
-                        self.unspecified.insert(key);
+                        if !self.trackers.contains_key(&key) {
+                            self.tracker_optional.insert(key);
+                        }
                         return None;
                     }
                     Some(Verdict::Error(_)) => return Some(false),
                     _ => {
-                        self.unspecified.insert(key);
+                        self.maybe_dropped.insert(key);
                         return None;
                     }
                 }
@@ -729,7 +736,7 @@ impl Model {
                 Some(Verdict::Accepted) | Some(Verdict::Error(crate::simnode::RPC_VERIFY_ALREADY_IN_CHAIN)) => true,
                 Some(Verdict::Error(_)) => false,
                 _ => {
-                    self.unspecified.insert(k);
+                    self.maybe_dropped.insert(k);
                     continue;
                 }
             };
@@ -743,7 +750,7 @@ impl Model {
                         self.touched.push((k, "C04"));
                     }
                     None => {
-                        self.unspecified.insert(k);
+                        self.maybe_dropped.insert(k);
                     }
                 }
             } else {
@@ -795,7 +802,7 @@ impl Model {
                             Some(Verdict::Error(c)) if c != crate::simnode::RPC_VERIFY_ALREADY_IN_CHAIN => {
                                 // a rejection of this very transaction earlier in the block: whether this tracker was
                                 // re-sent too (and so dropped) depends on the tower's private staleness clock
-                                self.unspecified.insert(k);
+                                self.maybe_dropped.insert(k);
                             }
                             Some(_) => {}
                             None => {
